@@ -33,9 +33,9 @@ for p in sorted(glob.glob(os.path.join(HERE, 'seeded', '*'))):
     d += bool(m.get('detected'))
     keys = ', '.join(x.replace('key=', '').rstrip(':') for x in m.get('check_keys', [])[:2])
     rows.append(f"| {os.path.basename(p)}: {cell(m.get('summary', ''), 150)} | {cell(m.get('needs_to_manifest', ''), 150)} | "
-                f"{'yes' if m.get('detected') else 'NO'} | `{cell(keys, 110)}` |")
+                f"{('yes (by ' + m['detected_by'] + ')') if m.get('detected') and m.get('detected_by') else 'yes' if m.get('detected') else 'NO'} | `{cell(keys, 110)}` |")
 rows.append('')
-rows.append(f'{d} of {n} seeded changes are caught by the quick tier of their property\'s check.')
+rows.append(f'{d} of {n} seeded changes are caught by the quick tier of their property\'s check (or of the check named in the third column).')
 seeded = '\n'.join(rows)
 
 path = os.path.join(HERE, 'DESIGN.md')
